@@ -26,11 +26,12 @@ P = {
     "C02.c": "the list branch of process_node appends every non-separator child in iteration order",
     "C02.d": "plain-assignment decision table: second value for a single-valued attribute raises MULT_ASSIGN_ERROR before the conversion",
     "C02.e": "by evaluation of visit_textx_rule on 34 sample rule bodies (parsing-expression trees; isinstance follows Arpeggio's class hierarchy): an attribute becomes a list iff assigned with += / *=, under a repetition, or more than once on one path (alternatives of a choice do not add up, members of an unordered group do); ?= under a repetition is a TextXSemanticError; rule modifiers and references to other rules change nothing",
+    "C02.f": "by evaluation of parse_tree_to_objgraph.process_node / process_match on a sample parse tree (12 objects and values, sample meta-classes, recording meta-model stand-ins): = stores one value, ?= stores True (False when absent), += stores every element in input order; a second value for a single-valued attribute is a 'Multiple assignments' TextXSemanticError",
     "C01.e": "(shared with C01) many-valued attributes start as [] for every configuration; base-type defaults follow the documented table",
     "C08.a": "(shared with C08) list references are stored positionally, not in resolution order",
     "C08.b": "(shared with C08) the position table is per list, persistent and updated in parallel with the list",
-    "C08.c": "(shared with C08) every queued list reference carries the position of its own element",
     "C08.d": "the resolver as a state machine, by evaluation (ReferenceResolver instantiated by interpreting __init__, resolve_one_step interpreted round after round with a provider stand-in that follows a postponement schedule): three references of one list postponed for 0-2 rounds each (27 schedules, a second list of the same object and the same attribute of a second object alongside) always end in textual order, each once",
+    "C08.e": 'by evaluation of parse_tree_to_objgraph.process_node / process_match on a sample parse tree (12 objects and values, sample meta-classes, recording meta-model stand-ins): every queued reference carries name, target class, start and end of its own text and is queued for the object and attribute it was written in, in textual order; separators are skipped',
   },
   declined="'list exactly when more than one value can be collected' for every grammar (which alternatives co-occur) and absence of Multiple-assignment errors for accepted input",
   technique="def-use dataflow on the accumulator + decision-table extraction over process_node"),
@@ -39,6 +40,7 @@ P = {
     "C03.k": "the visited set of the rule-kind fixpoint lives for one pass: it is re-created inside the change-driven loop before the classes are visited",
     "C03.l": "by evaluation of _init_class with sample classes (own vs inherited attributes): with inherits=None the class gets a new empty inheritor list of its own, also when it is a Python subclass of an initialised user class or was initialised before",
     "C03.m": "by evaluation of _determine_rule_types on 10 sample meta-models (rule bodies as parsing-expression trees), classes visited in grammar order and in reverse: rules with assignments are common; a rule without assignments referencing a non-match rule is abstract with exactly the non-match rules its alternatives yield as inheritors (match-rule references and syntactic predicates in front contribute nothing); all others are match rules",
+    "C03.n": "by evaluation of parse_tree_to_objgraph.process_node / process_match on a sample parse tree (12 objects and values, sample meta-classes, recording meta-model stand-ins): an abstract rule yields the object of its first non-match alternative; a match rule yields its joined text converted once under the rule's own name",
     "C03.j": "the static walkers of rule kind / inheritance inference skip syntactic predicates (And/Not leave no result at run time): every use of a node's .root in them lies where the node is known not to be a predicate",
     "C03.a": "every comparison with a RULE_*/MULT_* constant has a rule-kind / multiplicity operand (kind discipline)",
     "C03.b": "inside the change-driven fixpoint of _determine_rule_types every derived fact is recomputed each pass",
@@ -74,13 +76,14 @@ P = {
     "C05.d": "by evaluation over a sample containment chain (A in B in A in B in C): get_parent_of_type returns the nearest proper ancestor of the type, never the start object, None when there is none, and follows nothing but .parent",
     "C05.e": "by evaluation: a class passed as type argument (whose qualified name differs from its simple name) selects the same objects as its simple name, in get_parent_of_type and in the selector get_children_of_type builds",
     "C05.f": "by evaluation: get_model returns the root of the sample chain for every object of it and never consults equality (==, in) of model objects, which user classes may define by value",
+    "C05.g": 'by evaluation of parse_tree_to_objgraph.process_node / process_match on a sample parse tree (12 objects and values, sample meta-classes, recording meta-model stand-ins): every created object has the object whose attribute contains it as parent, the root object has none; reference attributes stay None / [] until resolution',
   },
   declined="exactly-once and ordering guarantees over arbitrary object graphs",
   technique="control-dependence (CFG post-dominators) on descent sites + sibling cross-check of the three walkers"),
 "C06": dict(
   decided={
-    "C06.e": "an object's _tx_position / _tx_position_end are the position / position_end of one and the same parse-tree node (the node the object is built from), unconditionally",
     "C06.a": "by evaluation of get_location on a sample object two levels below its model: keys line/col/nchar/filename, line/col of the object's start converted by the parser of the model that contains it, that model's file name, nchar = end - start",
+    "C06.f": 'by evaluation of parse_tree_to_objgraph.process_node / process_match on a sample parse tree (12 objects and values, sample meta-classes, recording meta-model stand-ins): every object carries the start and end offset of the text its own rule matched (also objects sharing a span with their only child, and the object an abstract rule yields)',
     "C06.b": "collected attributes (incl. _tx_position/_tx_position_end) are copied to user objects one by one; an unsettable attribute suppresses only itself",
     "C06.c": "the text handed to the parser is the caller's string, unmodified",
     "C06.d": "position arithmetic is Arpeggio's (a re-implementation in textX is an analysis error: numeric correctness is not decidable here)",
@@ -90,6 +93,7 @@ P = {
 "C07": dict(
   decided={
     "C07.e": "by evaluation of a resolver round: an unresolved reference takes the builtins entry of its name only if the type conforms; otherwise the round fails with a TextXSemanticError of type 'Unknown object' located by the model's own parser and file",
+    "C07.f": "by evaluation of parse_tree_to_objgraph.process_node / process_match on a sample parse tree (12 objects and values, sample meta-classes, recording meta-model stand-ins): every named object is registered under its class in the parser's instance table that the default provider reads when multi-meta-model support is off",
     "C07.a": "by evaluation of PlainName.__call__ over sample models (stand-ins for get_children/get_model/textx_isinstance): 0 conforming objects of the name -> None, 1 -> that object, >= 2 -> TextXSemanticError; same-named objects of unrelated classes do not count; only the model containing the referencing object is searched",
     "C07.b": "resolve_one_step: builtins consulted only after the provider returned None, accepted only under textx_isinstance; still None -> UNKNOWN_OBJ_ERROR; Postponed never stored",
     "C03.c": "(shared with C03) the type-conformance test recurses over inheritors with a cycle guard",
@@ -104,7 +108,6 @@ P = {
     "C08.a": "because a defer (Postponed) path exists in resolve_one_step, many-valued references must be stored positionally (index derived from the cross-reference) or re-ordered before exposure; a bare append in resolution order is a violation",
     "C02.c": "list references are queued in textual order (list branch of process_node)",
     "C08.b": "the index of the positional store comes from a position table whose key covers the list's determinants (owning object and attribute) injectively, which outlives a resolution round, and which is updated in parallel with the list (same index, same key) and by nothing else",
-    "C08.c": "every queued list reference carries the position of its own element: start and end from the same node, loop-variant inside the children loop",
   },
   declined="nothing else: with C02.c the clause is the property",
   technique="defer-path / store-path analysis on the resolver loop (CFG + path atoms)"),
@@ -360,7 +363,6 @@ P = {
     "C28.c": "the location fields of one raise are assigned in the same loop iteration; by evaluation of the unresolved-reference branch: line, col and filename of the error belong to one and the same reference",
     "C28.d": "the resolver fills a provider error's location only where it has none",
     "C28.e": "every scope-provider call of the resolver (attached, registered or default provider) lies inside the try whose TextXError handler fills line, col and filename from the reference and re-raises",
-    "C08.c": "(shared with C08) every list reference carries the position of its own element, so its error is located at that element",
     "C06.c": "(shared with C06) the parsed text is the caller's text", "C06.d": "(shared with C06) position arithmetic is Arpeggio's",
   },
   declined="numerical correctness of line/column",
@@ -397,7 +399,7 @@ P = {
 "C32": dict(
   decided={
     "C32.e": "visit_assignment records the RREL provider and match rule of an object reference on the attribute under no further condition",
-    "C32.d": "every ObjCrossRef takes scope_provider, match_rule_name and cls unchanged from one and the same attribute description",
+    "C32.f": 'by evaluation of parse_tree_to_objgraph.process_node / process_match on a sample parse tree (12 objects and values, sample meta-classes, recording meta-model stand-ins): a queued reference carries the grammar provider (RREL) and match rule of its attribute, None where the attribute has none',
     "C32.c": "a provider built from an RREL string and one built from a parsed grammar expression are configured alike: every read of the expression's flags (use_proxy, importURI) in create_rrel_scope_provider comes after the string was parsed","C32.a": "candidate key list is [Cls.attr, *.attr, Cls.*, *.*], scanned first-hit with default fallback; grammar RREL tested before the scan",
            "C32.b": "by evaluation of register_scope_providers on a sample table over an earlier registration: afterwards the table holds exactly the given keys, callables as given, every string replaced by the RREL provider made from it"},
   declined="nothing material",
@@ -412,15 +414,13 @@ P = {
   technique="field-coverage table agreement between get_location and the handler"),
 "C34": dict(
   decided={
-    "C08.c": "(shared with C08) every queued reference carries the start and end offset of its own parse-tree node (the span later published as ref_pos_start / ref_pos_end)",
-    "C34.a": "ref_pos_end derives from the cross-reference only",
     "C34.b": "the position list is sorted before exposure when a defer path / several models exist",
     "C34.c": "innermost object wins for a shared span",
     "C34.d": "spans ordered start descending, end ascending",
-    "C34.e": "field roles of RefRulePosition",
     "C34.g": "position lists are sorted after the resolution loop for every model of the load",
     "C34.f": "every created object is entered into the span map (None-test, not truth value)",
     "C34.h": "by evaluation of a resolver round with tool support on and off: every resolved model reference is recorded once with the reference's own start/end offsets and the target's file and span; builtin targets (plain objects) are not recorded and do not break the load; nothing is recorded with tool support off",
+    "C34.i": 'by evaluation of parse_tree_to_objgraph.process_node / process_match on a sample parse tree (12 objects and values, sample meta-classes, recording meta-model stand-ins): with tool support every object is registered under its span, the innermost object for a shared span',
   },
   declined="exactness of offsets",
   technique="origin dataflow + sort-key sign analysis + fill-order rule"),
